@@ -12,7 +12,7 @@ CONSTANTS
   LoopForms = {}
   ReqKeys = {}
   MaxReq = 0
-  MaxLen = 2
+  MaxLen = 1
   MaxDepth = 0
 SPECIFICATION SpecEmit
 INVARIANT Emit
